@@ -54,6 +54,7 @@ THold == /\ Ev.a = "Hold" /\ Ev.res \in {"ok", "err"} /\ (Ev.res = "ok" => IsFil
 TTruncate == /\ Ev.a = "Truncate" /\ Ev.res \in {"ok", "err"} /\ Clean
              /\ Api = Api2 /\ OthersUnchanged(Api, {Ev.p}) /\ NodeOK(Api[Ev.p], Ev.p)
              /\ AttrFrame({Ev.p}, Times)
+             /\ (~CanWrite(Ev.p) => Api = tree)          \* aimed at a symlink / directory / nothing: no change at all
              /\ (IF Ev.res = "ok" /\ CanWrite(Ev.p) /\ Api # TruncateT(Ev.p, Ev.off)
                    THEN PrintT(<<"DRIFT", l, "Truncate", Ev.p, Ev.off>>) ELSE TRUE)
              /\ tree' = Api /\ attr' = At /\ out' = Ev.res
